@@ -51,7 +51,7 @@ fn funding_tx(d: u64) -> Transaction {
 fn services(persister: Arc<dyn Persist>) -> NodeServices {
     NodeServices {
         validator_factory: Arc::new(SimpleValidatorFactory::new()),
-        starting_time_factory: make_genesis_starting_time_factory(Network::Testnet),
+        starting_time_factory: make_genesis_starting_time_factory(Network::Regtest),
         persister,
         clock: Arc::new(ManualClock::new(Duration::from_secs(1_700_000_000))),
         trusted_oracle_pubkeys: vec![],
@@ -79,7 +79,8 @@ impl W15 {
         let persister: Arc<dyn Persist> = Arc::new(KVVPersister(MemoryKVVStore::new([7u8; 16]), JsonFormat));
         let mut seed = [0u8; 32];
         seed.copy_from_slice(&hex::decode(TEST_SEED[1]).unwrap());
-        let config = NodeConfig { network: Network::Testnet, key_derivation_style: KeyDerivationStyle::Native, use_checkpoints: false, allow_deep_reorgs: true };
+        // regtest: blocks of regtest difficulty can cross the retarget boundary at 2016 (on testnet they exceed the chain maximum)
+        let config = NodeConfig { network: Network::Regtest, key_derivation_style: KeyDerivationStyle::Native, use_checkpoints: false, allow_deep_reorgs: true };
         let node = Arc::new(Node::new(config, &seed, vec![], services(persister.clone())));
         persister.new_node(&node.get_id(), &config, &*node.get_state()).unwrap();
         persister.new_tracker(&node.get_id(), &node.get_tracker()).unwrap();
@@ -381,6 +382,8 @@ impl Group for C15 {
             // the same swept: pruned when the sweep is 100 deep; static-remotekey channel likewise
             mk("init|new 2|setup 2|add 21|add 28|add 29|forget 2|addn 98|heartbeat|addn 1|heartbeat|addn 1|heartbeat"),
             mk("init|new 1|setup 1|add 11|add 18|forget 1|addn 100|heartbeat|add 19|addn 99|heartbeat"),
+            // an open channel whose forget was requested survives far beyond MAX_CLOSING_DEPTH (2016) blocks
+            mk("init|new 1|setup 1|add 11|forget 1|addn 2030|heartbeat|restart|heartbeat|new 1"),
             // unilateral close, swept later; double spend on another channel
             mk("init|new 1|new 2|setup 1|setup 2|add 11 22|add 14|forget 1|forget 2|addn 50|add 15 16|add 17|addn 60|heartbeat|addn 45|heartbeat"),
         ];
@@ -545,7 +548,7 @@ impl Group for C15 {
     fn model_line(&self, op: &str) -> Option<String> {
         let t: Vec<&str> = op.split_whitespace().collect();
         Some(match t.as_slice() {
-            ["init"] => "init 3 0".to_string(),
+            ["init"] => "init 3 1".to_string(),
             ["setup", d] => {
                 let d: u64 = d.parse().unwrap();
                 format!("setup {} {} {} 0 0.{};0.{}", d, d, fid(d), 10 * d + 1, 10 * d + 2)
